@@ -45,6 +45,9 @@ CLAIMED = {
  "C16": ("Hypothesis property-based testing; oracle = exact rational row-space test / re-derived post-conditions on every yielded schedule; matcher compared with the exact test on constructed matching and perturbed pairs; small pairs exhaustively (thorough)",
          "Every schedule yielded by scheduler_backtrack on generated and realistic (gemmx/alu/xdma-like) template cases is checked for template fit, bounds, and the requested extra constraints, all in exact arithmetic independent of the SVD-based predicate under test; the matcher itself is compared with the exact decision. Exploration level with an exhaustive small sub-space.",
          TRUST + " Entries restricted to -16..16 and dims <= 5 so float artefacts of the SVD test on inputs no caller produces are not flagged.", "4/C16"),
+ "C17": ("Hypothesis property-based testing + exhaustive small loop grids; oracle = differential trace: the module before and after the pass is interpreted on the same inputs and the trace of tagged side-effecting ops with their evaluated index/size operands and memref views must be identical (allocations compared through their uses)",
+         "Generated loop nests (depth <= 3, constant / run-time / triangular bounds, ub not a multiple of step, zero and negative trip counts, iter_args, bodies mixing tagged ops, pure arith, allocs, subviews, dims, affine.min) go through pipeline-canonicalize-for and reuse-memref-allocs separately and in pipeline order; both versions are executed for two input vectors. Grids of single loops (lb x ub 0..12 x step 1..5) and 2/3-level nests with marker ops are enumerated. Exploration level with exhaustive sub-spaces.",
+         TRUST + " memref values are symbolic descriptors; for reuse-memref-allocs a buffer dimension may grow to what the original computes with its affine.min ops forced to their constant bound (executed reference). Three known findings (imperfect nests merged and affine.min consumers rewritten, both encoded in upstream's lit tests; allocs carried across iterations) are classified by narrow signatures.", "4/C17"),
  "C18": ("Hypothesis property-based testing + exhaustive small-body enumeration; oracle = differential evaluation with fixed-width two's-complement semantics (body before vs after; kernel ops through their own equivalent_region and an independent Python restatement), documented rescale formula, dispatch declaration check",
          "Generated and enumerated linalg bodies (any wiring, widths i8..i64) are run through convert-linalg-to-kernel and evaluated before/after on all corner inputs plus drawn vectors; every kernel x width combination is expanded with convert-kernel-to-linalg and compared with the kernel definition and round-tripped; the rescale expansion is compared with the documented limited formula; dispatch-kernels results are checked against supported_kernels. Exploration level with exhaustive small sub-spaces.",
          TRUST + " The rescale oracle restates the documented formula (no hardware model offline). One known finding (dispatch type check is dead code) is classified by a narrow signature. convert-tosa-to-kernel is not driven (tosa.rescale text differs under xDSL 0.70).", "4/C18"),
